@@ -448,6 +448,23 @@ func (o *c17Oracle) judge(m *c17Snap, bt *BuiltTx, d *c17Tx) *c17Verdict {
 		}
 		raw := cbor.Marshal(&rt)
 		vd.apply = func(m *c17Snap) { m.rts[rt.ID] = &c17RtRec{raw: raw, rt: &rt} }
+	case registry.MethodUnfreezeNode:
+		// Lifting a node's freeze changes its status record: only the entity that owns the node
+		// (the one named in its registered descriptor) may ask for it.
+		var u registry.UnfreezeNode
+		if cbor.Unmarshal(d.tx.Body, &u) != nil {
+			deny("malformed-body")
+			return vd
+		}
+		vd.target = o.ss.nameOf(u.NodeID)
+		rec := m.nodes[u.NodeID]
+		if rec == nil {
+			forbid("no-such-node")
+			return vd
+		}
+		if !d.signer.Equal(rec.n.EntityID) {
+			deny("tx-signer-is-not-the-entity-that-owns-the-node")
+		}
 	default:
 		vd.registry = false
 	}
